@@ -374,11 +374,11 @@ fn value_level(ctx: &Ctx) {
 // hooks do not know about is cold too); the explorer then runs, in one process, a history that contains every ordered
 // pair of requests adjacently and compares every answer with its cold answer.
 
-pub const OBSERVERS: usize = 8;
+pub const OBSERVERS: usize = 9;
 
 fn grid(quick: bool) -> Vec<(isize, usize, usize)> {
-  let years: Vec<isize> = if quick { vec![2, 21, 202, 1582, 2020, 2021, 2024, 9000] } else { vec![1, 2, 11, 12, 21, 202, 203, 1582, 1999, 2000, 2020, 2021, 2023, 2024, 9000, 9998] };
-  let months: Vec<usize> = if quick { vec![1, 2, 12] } else { vec![1, 2, 6, 11, 12] };
+  let years: Vec<isize> = if quick { vec![2, 21, 202, 1582, 1964, 2020, 2021, 2024, 9000] } else { vec![1, 2, 11, 12, 21, 202, 203, 1582, 1904, 1964, 1999, 2000, 2020, 2021, 2023, 2024, 2084, 9000, 9998] };
+  let months: Vec<usize> = if quick { vec![1, 12] } else { vec![1, 2, 6, 11, 12] };
   let days: Vec<usize> = if quick { vec![1, 6, 26] } else { vec![1, 6, 15, 26, 28] };
   let mut v = Vec::new();
   for &y in &years {
@@ -419,9 +419,15 @@ pub fn observe(date: (isize, usize, usize), obs: usize) -> String {
         format!("leap {} count {} days {} next {} first {}", ly.get_leap_month(), ly.get_month_count(), ly.get_day_count(), fmt_month(&lm.next(1)), lm.get_first_julian_day().get_day())
       }
       6 => format!("{:?} {:?} {:?}", sd.get_festival().map(|f| f.to_string()), sd.get_lunar_day().get_festival().map(|f| f.to_string()), sd.get_legal_holiday().map(|f| f.to_string())),
-      _ => {
+      7 => {
         let c = ChildLimit::from_solar_time(SolarTime::from_ymd_hms(y, m, d, 1, 11, 19), Gender::WOMAN);
         format!("{} {}", c.get_end_time(), c.get_start_decade_fortune().get_name())
+      }
+      _ => {
+        // the same (month, day) read as a *lunar* date (years 60 apart share their sexagenary name): day 26 stands for
+        // day 29, whose New-Year's-Eve status depends on the length of the year's last month
+        let ld = LunarDay::from_ymd(y, m as isize, if d >= 26 { 29 } else if d >= 15 { 15 } else { d });
+        format!("{} = {} festival {:?} gods {}", ld, ld.get_solar_day(), ld.get_festival().map(|f| f.to_string()), ld.get_gods().len())
       }
     }
   });
